@@ -4,11 +4,18 @@ use derive_more::Display;
 use simplesl_macros::var_type;
 use std::{ops::Deref, sync::Arc};
 
-#[derive(Display, PartialEq)]
+#[derive(Display)]
 #[display("{}", self.string(0))]
 pub struct Array {
     pub(crate) element_type: Type,
     pub(crate) elements: Arc<[Variable]>,
+}
+
+/// Arrays are equal when their elements are; the stored element type is not part of the value
+impl PartialEq for Array {
+    fn eq(&self, other: &Self) -> bool {
+        self.elements == other.elements
+    }
 }
 
 impl Array {
